@@ -169,6 +169,12 @@ def _collect_inline_segments(
     elif isinstance(element, inline.InlineHTML):
         assert isinstance(element.children, str)
         segments.append((element.children, None))
+    elif isinstance(element, inline.AutoLink):
+        # Autolinks and bare URLs (GFM `Url` is a subclass): the text is the URL itself.
+        for child in element.children:
+            if isinstance(child, inline.RawText):
+                assert isinstance(child.children, str)
+                segments.append((child.children, None))
     elif hasattr(element, "children") and isinstance(element.children, list):  # pyright: ignore
         # Recursive container (Emphasis, StrongEmphasis, Link, Strikethrough, etc.)
         children: list[Element] = element.children  # pyright: ignore
